@@ -167,4 +167,9 @@ MUTANTS += [
  # String::with_capacity(bytes.len() * 2) in a private helper whose every caller hands it a digest output
  {"id": "capacity-in-hex-helper-benign", "kind": "benign", "edits": [{"patch": "/verif/benign/h9-digest-1/patch.diff"}]},
  {"id": "capacity-in-hex-helper-overflows", "kind": "break", "edits": [{"patch": "/verif/benign/h9-digest-1/patch.diff"}, ("src/digest.rs", "String::with_capacity(bytes.len() * 2)", "String::with_capacity(usize::MAX - bytes.len())")], "expect": ["PANIC@digest::hex_encode#call:with_capacity"]},
+
+ # bytes[sep..end] in a helper after `sep + 1 >= end` was ruled out
+ {"id": "range-after-sum-bound-benign", "kind": "benign", "edits": [{"patch": "/verif/benign/h10-plist-1/patch.diff"}]},
+ {"id": "range-after-sum-bound-starts-too-late", "kind": "break", "edits": [{"patch": "/verif/benign/h10-plist-1/patch.diff"}, ("src/plist.rs", "        for c in &bytes[sep..end] {", "        for c in &bytes[sep + 3..end] {")], "expect": ["PANIC@plist::PlistEntry::split_args#call:index"]},
+ {"id": "range-after-sum-bound-test-dropped", "kind": "break", "edits": [{"patch": "/verif/benign/h10-plist-1/patch.diff"}, ("src/plist.rs", "        if sep == 0 || sep + 1 >= end {", "        if sep == 0 {")], "expect": ["PANIC@plist::PlistEntry::split_args#call:index"]},
 ]
